@@ -4,7 +4,7 @@ E1 history BFS (add/remove over a pool with colliding ids) to the fixpoint per w
 whole fault menu (duplicate id, unknown id, strict lookup of unknown id, out-of-range placement on every axis
 and side) is executed and must raise the documented error and leave the full snapshot bit-identical.
 """
-from mc.engine import hbfs
+from mc.engine import hbfs, par
 from mc.engine.report import Violation
 from mc.engine.seams import Canon, public_snapshot, new_model
 
@@ -319,15 +319,20 @@ def run(ctx):
            [(k, False, True) for k in fk]
     if ctx.small:
         plan = [(k, False, False) for k in kinds]
-    for kind, al, fo in plan:
-        h = Harness(kind, al, fo)
-        name = kind + ('+deprecated_entry_points' if al else '') + ('+foreign_agent' if fo else '')
-        r = hbfs.explore(ctx, h, name, max_depth=30, procs=ctx.procs)
-        ctx.leg(name, **r)
-        if not r.get('fixpoint'):
-            ctx.cap(f'{kind}: fixpoint not reached')
-        if ctx.violations:
-            return
+    # the foreign-agent legs are the largest: first, for load balance (one harness worker per leg)
+    plan.sort(key=lambda p: (not p[2], p[0] != 'plain'))
+    par.pmap(ctx, explore_leg, plan, procs=ctx.procs)
+
+
+def explore_leg(ctx, item):
+    kind, al, fo = item
+    h = Harness(kind, al, fo)
+    name = kind + ('+deprecated_entry_points' if al else '') + ('+foreign_agent' if fo else '')
+    # the model is also deep-copied in every state of the plain / grid legs (hbfs clone mode)
+    r = hbfs.explore(ctx, h, name, max_depth=30, procs=1, clone=(kind in ('plain', 'grid_3x2') and not al and not fo))
+    ctx.leg(name, **r)
+    if not r.get('fixpoint') and not ctx.violations:
+        ctx.cap(f'{name}: fixpoint not reached')
 
 
 def replay(case):
